@@ -692,6 +692,26 @@ func (i *interpreter) noteWrite(fr *frame, addr *value) {
 		"write to shared cell in "+fr.fn.String()+loc(fr.fn.Prog.Fset, curPos(fr)), "", m)
 }
 
+// noteSliceWrite / noteAppend: the builtins copy and append write slice cells
+// without a Store instruction; an append within capacity writes in place into
+// the (possibly shared) backing array.
+func (i *interpreter) noteSliceWrite(fr *frame, cells []value) {
+	p := i.p
+	if p == nil || (!p.monitorOn && p.cached == nil) {
+		return
+	}
+	for k := range cells {
+		i.noteWrite(fr, &cells[k])
+	}
+}
+
+func (i *interpreter) noteAppend(fr *frame, dst []value, n int) {
+	if n == 0 || len(dst)+n > cap(dst) {
+		return // nothing written, or a fresh backing array is allocated
+	}
+	i.noteSliceWrite(fr, dst[len(dst):len(dst)+n])
+}
+
 func (i *interpreter) noteMapWrite(fr *frame, mp *omap) {
 	p := i.p
 	if p.cachedMaps != nil && p.cachedMaps[mp] {
